@@ -147,7 +147,8 @@ def run_c16(ctx: Ctx) -> None:
         focus = [None, "energy", "dispatch", "queue", "fleet", None][k % 6]
         wk: Dict[str, Any] = {"focus": focus} if focus else {}
         jobs.append({"id": f"saved{base + k}", "label": "saved", "mode": "saved", "src": "gen", "seed": 61000 + base + k, "steps": ctx.pick(30, 50),
-                     "world_kwargs": wk, "mix": ["builtin+adv", "adv", "builtin", "adv+builtin"][k % 4], "every": 5, "later": 8})
+                     "world_kwargs": wk, "mix": ["builtin+adv", "adv", "builtin", "adv+builtin"][k % 4], "every": 5, "later": 8,
+                     "throttle": focus == "energy"})
     jobs.append({"id": "denver_demo", "label": "saved", "mode": "saved", "src": "shipped", "scenario": str(SCEN_DENVER / "denver_demo.yaml"),
                  "steps": ctx.pick(60, 400), "every": 10, "later": 15})
     groups = [("0", jobs[i::6]) for i in range(6) if jobs[i::6]]
